@@ -37,7 +37,8 @@ import YaqsModel.Model.CheckerChain
           `gate_.mpo_tensors = G` on the n-site chain W: `lrLayer` (`lrGateTensors`, `lrMul`, then `runSteps` over the pair
           updates with the SVD factors of each `decompose_theta`); answer `tm … | keep k` per pair update (the matrix handed
           to the SVD, the kept rank) then `chain | <site>×nG` (the tensors of the span afterwards) | `assert`
-  lrstack c d loc nG n | <site G>×nG | <site W>×n    → `<site>×nG`: the span of `lrMul` (all gate tensors stacked, no SVD)
+  lrblocks c d loc nG n | <site G>×nG | <site W>×n   → for every pair of the layer that is not the hanging one: shape + entries of the merged
+          block of the two STACKED tensors of `lrMul` (what the code's pair einsum + reshape hands to `apply_temporal_zone`), joined by `|`
 -/
 open Yaqs Yaqs.Verdict
 
@@ -216,9 +217,9 @@ def handleLR (parts : List (List String)) : String :=
             | none => "bad-op"
         | _, _ => "bad-op"
     | _, _, _, _, _, _, _, _ => "bad-op"
-  | ["lrstack", c, d, loc, nG, n] :: rest =>
+  | ["lrblocks", c, d, loc, nG, n] :: rest =>
     match c.toNat?, d.toNat?, loc.toNat?, nG.toNat?, n.toNat? with
-    | some c, some _, some loc, some nG, some n =>
+    | some c, some d, some loc, some nG, some n =>
       if rest.length ≠ nG + n then "bad-op"
       else
         match allParts? parseSite? (rest.take nG), allParts? parseSite? (rest.drop nG) with
@@ -226,7 +227,13 @@ def handleLR (parts : List (List String)) : String :=
           if loc + nG > ts.length then "bad-op"
           else
             let conj := decide (c = 2)
-            " | ".intercalate (((lrMul conj (lrGateTensors CRat.conj conj gm) loc ts).drop loc).take nG |>.map showSite)
+            let M := lrMul conj (lrGateTensors CRat.conj conj gm) loc ts
+            let ms := (lrPairs loc nG).filter fun m => (m - loc) % 2 == 0 && decide (m + 1 < loc + nG) && decide (m - loc ≠ nG - 1)
+            let blocks := ms.filterMap fun m =>
+              match M[m]?, M[m + 1]? with
+              | some A, some B => some (s!"{d} {d} {A.dl} {d} {d} {B.dr} " ++ showArr (tab6 d d A.dl d d B.dr (thetaOf A B)))
+              | _, _ => none
+            " | ".intercalate blocks
         | _, _ => "bad-op"
     | _, _, _, _, _ => "bad-op"
   | _ => "bad-op"
@@ -338,7 +345,7 @@ def handle (parts : List (List String)) : String :=
       | none => "assert"
     | _, _ => "bad-op"
   | ("lrlayer" :: _) :: _ => handleLR parts
-  | ("lrstack" :: _) :: _ => handleLR parts
+  | ("lrblocks" :: _) :: _ => handleLR parts
   | _ => "bad-op"
 
 end MpoUpdDrv
